@@ -104,7 +104,8 @@ def twins(ctx, n_ham, reps):
     for ih in range(n_ham):
         if not ctx.mine(ih):
             continue
-        degree = int(rng.integers(3, ctx.pick(6, 9)))
+        # consecutive systems deliberately share name and degree (a memo keyed by anything less than the coefficients would alias them)
+        degree = 4 if ih % 3 < 2 else int(rng.integers(3, ctx.pick(6, 9)))
         H = random_H(rng, degree, int(rng.integers(3, 10)))
         label = {str(k): round(float(v), 6) for k, v in H.items()}
         hs = pu.hamiltonian_system(H, degree)
